@@ -270,7 +270,10 @@ def render_op(op, strip, reverse, git, rnd):
 def render_patch(p, rnd):
     parts = []
     if rnd.random() < 0.3:
-        parts.append(b"From: someone\nSubject: %s\n\nSome description.\n---\n file | 2 +-\n\n" % p.name.encode())
+        # a mail-style description; the separator line sometimes carries a trailing blank or TAB and is followed by the diff
+        # directly (no diffstat in between)
+        sep = rnd.choice([b"---\n file | 2 +-\n\n", b"---\n file | 2 +-\n\n", b"--- \n\n", b"--- \n", b"---\t\n\n", b"---  \n file | 2 +-\n\n"])
+        parts.append(b"From: someone\nSubject: %s\n\nSome description.\n" % p.name.encode("utf-8", "surrogateescape") + sep)
     if getattr(p, "prefix_style", None) is None:
         p.prefix_style = "double-slash" if (p.strip >= 1 and rnd.random() < 0.07) else ("dot-slash" if ((p.strip == 0 or not p.git) and rnd.random() < 0.15) else "plain")
     PREFIX_STYLE[0] = p.prefix_style
@@ -521,7 +524,7 @@ def _gen_op(r, work, cfg, git, reverse, touched):
         p = r.choice(existing)
         data, mode = work[p]
         q = _pick_new_path(r, work, cfg, touched)
-        empties = [e for e in work if not work[e][0] and e != p and e not in touched]
+        empties = [e for e in work if not work[e][0] and e != p and (cfg.allow_same_file_twice or e not in touched)]
         over_empty = None
         if empties and data and r.random() < 0.3:
             # onto a name that exists with zero length: accepted (like a creation onto an empty file); undoing it must bring
